@@ -391,6 +391,22 @@ pub fn c01_families(tier: &str) -> Vec<SeqSpec> {
     av.extend(reopen_ops(2));
     v.push(spec("F-varint", &["M2b", "T300n"], vec![vec![b'k'; 127], vec![b'k'; 128], vec![b'k'; 16384]], av.clone(), if t { 4 } else { 3 }, READS));
     v.push(spec("F-varint/flush", &["T300", "T300n"], vec![vec![b'k'; 127], vec![b'k'; 128], vec![b'k'; 16384]], av, if t { 4 } else { 3 }, READS).flush());
+    // one key several times in one batch (put then delete, delete then put, two puts): the order
+    // inside a batch decides the outcome, through the memtable, a WAL replay and a flush
+    let adup = vec![
+        Op::Batch(vec![(0, true), (0, false)]),
+        Op::Batch(vec![(0, false), (0, true)]),
+        Op::Batch(vec![(0, true), (0, true)]),
+        Op::Batch(vec![(0, true), (1, true), (0, false)]),
+        Op::Batch(vec![(1, false), (0, true), (1, true)]),
+        Op::Put(0, 0),
+        Op::Del(1),
+        Op::Compact(None, None),
+        Op::Reopen(0),
+        Op::Reopen(1),
+    ];
+    v.push(spec("F-batch-dup/lazy", &["M2n", "D"], k2(), adup.clone(), if t { 5 } else { 3 }, READS).lazy());
+    v.push(spec("F-batch-dup/flush", &["T300", "T300n"], k2(), adup, if t { 5 } else { 3 }, READS).flush());
     // WAL records that end 7 / 6 bytes before the end of a log block, followed by further writes
     // and reopens with and without log reuse
     v.push(
